@@ -174,8 +174,9 @@ def run_property(pid, tier):
         "wall_s": round(time.time() - t0, 2),
         "violations": len(real_violations),
     }
-    os.makedirs(os.path.join(VERIF, "evidence"), exist_ok=True)
-    with open(os.path.join(VERIF, "evidence", pid + ".json"), "w") as f:
+    evdir = "evidence" if os.path.realpath(repo.root) == "/repo" else ".selftest/evidence"   # self-test runs never touch evidence/
+    os.makedirs(os.path.join(VERIF, evdir), exist_ok=True)
+    with open(os.path.join(VERIF, evdir, pid + ".json"), "w") as f:
         json.dump(ev, f, indent=1, default=str)
     # ---- console ------------------------------------------------------------------------------------------------
     print("property %s tier=%s: %d obligations (%d z3 over %d functions, %d other), %d discharged, %d refuted, %d undecided, %.1fs"
